@@ -51,6 +51,9 @@ pub enum Step {
     /// read_text (slice only; other sources use read_to_end_into and report the span)
     #[serde(rename = "rtext")]
     ReadText,
+    /// Reader::stream(): take up to `n` raw bytes through io::Read (`buf` = false) or fill_buf/consume (`buf` = true)
+    #[serde(rename = "raw")]
+    Stream { n: usize, buf: bool },
 }
 
 /// Observation of one step. For Read: the projected result. For ReadToEnd /
@@ -79,6 +82,10 @@ pub enum Src {
     Str,
     Buffered(Plan),
     Async(Plan),
+    /// NsReader::from_reader(&[u8]), read with read_resolved_event (the same events, plus namespace bookkeeping)
+    Ns,
+    /// NsReader over a chunked BufRead, read with read_resolved_event_into
+    NsBuffered(Plan),
 }
 
 pub struct Run {
@@ -90,12 +97,16 @@ pub struct Run {
 
 macro_rules! drive {
     ($reader:ident, $steps:ident, $out:ident, $env_len:expr,
-     read: $read:expr, rte: $rte:expr, rtext: $rtext:expr) => {{
+     read: $read:expr, rte: $rte:expr, rtext: $rtext:expr, stream: $stream:expr) => {{
         let mut last_start: Vec<u8> = Vec::new();
         let mut fresh_start = false;
+        // after Eof or a syntax error the reader is finished; raw reads are then outside the modelled domain
+        // (XmlRead: ps = "Done"; the slice source keeps the bytes of the broken construct although the position covers them)
+        let mut finished = false;
         for st in $steps {
             let st = match st {
                 Step::ReadToEnd | Step::ReadText if !fresh_start => &Step::Read,
+                Step::Stream { .. } if finished => &Step::Read,
                 s => s,
             };
             let so = match st {
@@ -125,9 +136,32 @@ macro_rules! drive {
                         Ok(mut o) => {
                             o.p = $reader.buffer_position();
                             o.q = $reader.error_position();
+                            if o.k == "Eof" || (o.k == "Err" && !o.e.starts_with("IllFormed")) {
+                                finished = true;
+                            }
                             StepObs { o, s: None, c: None, did: "read".into() }
                         }
                         Err(_) => StepObs { o: Obs { k: "Panic".into(), ..Default::default() }, s: None, c: None, did: "read".into() },
+                    }
+                }
+                Step::Stream { n, buf } => {
+                    fresh_start = false;
+                    let (n, via_buf) = (*n, *buf);
+                    let r = catch_unwind(AssertUnwindSafe(|| -> std::io::Result<Vec<u8>> { ($stream)(n, via_buf) }));
+                    match r {
+                        Ok(Ok(bytes)) => StepObs {
+                            o: Obs { k: "Raw".into(), b: bytes, p: $reader.buffer_position(), q: $reader.error_position(), ..Default::default() },
+                            s: None,
+                            c: None,
+                            did: "raw".into(),
+                        },
+                        Ok(Err(_)) => StepObs {
+                            o: Obs { k: "Err".into(), e: "Io".into(), p: $reader.buffer_position(), q: $reader.error_position(), ..Default::default() },
+                            s: None,
+                            c: None,
+                            did: "raw".into(),
+                        },
+                        Err(_) => StepObs { o: Obs { k: "Panic".into(), ..Default::default() }, s: None, c: None, did: "raw".into() },
                     }
                 }
                 Step::ReadToEnd | Step::ReadText => {
@@ -159,6 +193,9 @@ macro_rules! drive {
                             let mut o = project_err(&e);
                             o.p = $reader.buffer_position();
                             o.q = $reader.error_position();
+                            if !o.e.starts_with("IllFormed") {
+                                finished = true;
+                            }
                             StepObs { o, s: None, c: Some(read_cfg($reader.config())), did: "rte".into() }
                         }
                         Err(_) => StepObs { o: Obs { k: "Panic".into(), ..Default::default() }, s: None, c: None, did: "rte".into() },
@@ -194,7 +231,8 @@ pub fn run_reader(input: &[u8], cfg: &CfgBits, steps: &[Step], src: &Src) -> Run
                     let t = reader.read_text(qn)?;
                     let t = t.into_owned().into_bytes();
                     Ok((start..start + t.len() as u64, Some(t)))
-                });
+                },
+                stream: |n: usize, via_buf: bool| -> std::io::Result<Vec<u8>> { crate::reader::take_raw(&mut reader.stream(), n, via_buf) });
         }
         Src::Buffered(plan) => {
             let src = Chunked::new(input, plan.clone());
@@ -208,7 +246,38 @@ pub fn run_reader(input: &[u8], cfg: &CfgBits, steps: &[Step], src: &Src) -> Run
                 rtext: |qn| -> Result<(std::ops::Range<u64>, Option<Vec<u8>>), quick_xml::Error> {
                     buf.clear();
                     reader.read_to_end_into(qn, &mut buf).map(|sp| (sp, None))
-                });
+                },
+                stream: |n: usize, via_buf: bool| -> std::io::Result<Vec<u8>> { crate::reader::take_raw(&mut reader.stream(), n, via_buf) });
+            out.env = log.borrow().clone();
+        }
+        Src::Ns => {
+            let mut reader = quick_xml::NsReader::from_reader(input);
+            apply_cfg(reader.config_mut(), cfg);
+            drive!(reader, steps, out, 0,
+                read: reader.read_resolved_event().map(|(r, e)| { let _ = format!("{:?}", r); e }),
+                rte: |qn| reader.read_to_end(qn),
+                rtext: |qn| -> Result<(std::ops::Range<u64>, Option<Vec<u8>>), quick_xml::Error> {
+                    let start = reader.buffer_position();
+                    let t = reader.read_text(qn)?;
+                    let t = t.into_owned().into_bytes();
+                    Ok((start..start + t.len() as u64, Some(t)))
+                },
+                stream: |_n: usize, _b: bool| -> std::io::Result<Vec<u8>> { Err(std::io::Error::new(std::io::ErrorKind::Other, "verif: no raw reads on NsReader")) });
+        }
+        Src::NsBuffered(plan) => {
+            let src = Chunked::new(input, plan.clone());
+            let log = src.log.clone();
+            let mut reader = quick_xml::NsReader::from_reader(src);
+            apply_cfg(reader.config_mut(), cfg);
+            let mut buf = Vec::new();
+            drive!(reader, steps, out, log.borrow().len(),
+                read: { buf.clear(); reader.read_resolved_event_into(&mut buf).map(|(r, e)| { let _ = format!("{:?}", r); e }) },
+                rte: |qn| { buf.clear(); reader.read_to_end_into(qn, &mut buf) },
+                rtext: |qn| -> Result<(std::ops::Range<u64>, Option<Vec<u8>>), quick_xml::Error> {
+                    buf.clear();
+                    reader.read_to_end_into(qn, &mut buf).map(|sp| (sp, None))
+                },
+                stream: |_n: usize, _b: bool| -> std::io::Result<Vec<u8>> { Err(std::io::Error::new(std::io::ErrorKind::Other, "verif: no raw reads on NsReader")) });
             out.env = log.borrow().clone();
         }
         Src::Async(plan) => {
@@ -223,11 +292,44 @@ pub fn run_reader(input: &[u8], cfg: &CfgBits, steps: &[Step], src: &Src) -> Run
                 rtext: |qn| -> Result<(std::ops::Range<u64>, Option<Vec<u8>>), quick_xml::Error> {
                     buf.clear();
                     crate::env::block_on(reader.read_to_end_into_async(qn, &mut buf)).map(|sp| (sp, None))
-                });
+                },
+                stream: |n: usize, via_buf: bool| -> std::io::Result<Vec<u8>> { crate::reader::take_raw(&mut reader.stream(), n, via_buf) });
             out.env = log.borrow().clone();
         }
     }
     out
+}
+
+/// Take up to `n` bytes from a `BinaryStream`: repeated `read` calls (short reads are legal and are what a chunked
+/// source produces) or `fill_buf` + `consume`, until `n` bytes were taken or the source is exhausted.
+pub fn take_raw<S: std::io::BufRead>(s: &mut S, n: usize, via_buf: bool) -> std::io::Result<Vec<u8>> {
+    let mut out = Vec::new();
+    if via_buf {
+        while out.len() < n {
+            let avail = s.fill_buf()?;
+            if avail.is_empty() {
+                break;
+            }
+            let k = avail.len().min(n - out.len());
+            out.extend_from_slice(&avail[..k]);
+            s.consume(k);
+        }
+    } else {
+        let mut b = vec![0u8; n];
+        loop {
+            let k = s.read(&mut b[out.len()..])?;
+            // (the buffer handed to `read` is always the whole remaining window: a short read leaves it larger than the result)
+            if k == 0 {
+                break;
+            }
+            let from = out.len();
+            out.extend_from_slice(&b[from..from + k].to_vec());
+            if out.len() == n {
+                break;
+            }
+        }
+    }
+    Ok(out)
 }
 
 /// `n` plain read steps
